@@ -159,6 +159,15 @@ def worker(ctx, job):
                 wr.do_write(srv, real_cache, side="s", entry="hash", n=OLD["n"], tag=OLD["tag"])
                 if key is not None:
                     wr.do_write(srv, real_cache, side="s", entry="oneshot", key=key, n=OLD["n"], tag=OLD["tag"])
+            if op in EXTRACT and temp == "warm" and job.get("dest_exists"):
+                # the destination already exists: as an earlier extraction of the same entry (a hard link to the same
+                # content) or as an unrelated file
+                cpath_ = os.path.join(real_cache, ref.content_rel(sri(OLD)))
+                if job["dest_exists"] == "same-content-link" and os.path.isfile(cpath_):
+                    os.link(cpath_, dest)
+                else:
+                    with open(dest, "wb") as fh:
+                        fh.write(b"an unrelated file")
             init = fsutil.snapshot(real_cache)
             before_outside = fsutil.snapshot(outside)
             pf = ctx.path("prog-c15.json")
@@ -267,6 +276,8 @@ def main(tier, seed=0):
                 jobs.append({"flavour": flavour, "side": side, "temp": temp, "rootform": rootform, "ops": UNKEYED, "keys": []})
         jobs.append({"flavour": flavour, "side": side, "temp": "index-only", "rootform": "abs", "ops": ["remove_fully", "remove", "index_delete", "read", "metadata", "writer"], "keys": keys[:6]})
         jobs.append({"flavour": flavour, "side": side, "temp": "index-only", "rootform": "abs", "ops": ["list", "clear", "index_ls"], "keys": []})
+        for de in ("same-content-link", "other-file"):
+            jobs.append({"flavour": flavour, "side": side, "temp": "warm", "rootform": "abs", "ops": sorted(EXTRACT), "keys": keys[:2], "dest_exists": de})
         jobs.append({"flavour": flavour, "side": side, "temp": "tmp-blocked", "rootform": "abs", "ops": ["write", "write_with_algo", "writer", "writer_dropped", "writer_create", "link_to"], "keys": keys[:3]})
         jobs.append({"flavour": flavour, "side": side, "temp": "tmp-blocked", "rootform": "abs", "ops": ["write_hash", "link_to_hash", "list", "read_hash"], "keys": []})
     if quick:
